@@ -227,7 +227,7 @@ PROPS = {
         trusted_base=['heap model of getattr/setattr/delattr', 'threading.local semantics'],
     ),
     'C11': dict(
-        level='other', contracts=['radix', 'C02'], frames=[],
+        level='other', contracts=['radix', 'C02', 'C01'], frames=[],
         technique='bounded model-based contract check: every edit history up to a depth bound (state-merged) compared with a freshly '
                   'built router on all probe paths, name/rule lookups and fired hooks',
         explanation='BOUNDED edit histories over seven rule universes (incl. literal children directly after a filtered wildcard); see coverage.bounded.',
